@@ -56,7 +56,7 @@ def make_files(h, wd, rng):
     return names
 
 
-def reference(h, wd, fname, pro_file="pro.json", pre_file="pre.json"):
+def reference(h, wd, fname, pro_file="pro.json", pre_file="pre.json", dist_mc="lognormal", dist_fn="lognormal"):
     """what read -> preprocess -> process -> write produce for this file alone with freshly loaded settings"""
     cwd = os.getcwd()
     os.chdir(wd)
@@ -68,8 +68,8 @@ def reference(h, wd, fname, pro_file="pro.json", pre_file="pre.json"):
             rec = h.read([[fname]])
             win = h.preprocess(rec, pre)
             res = h.process(win, pro)
-            out = f"ref_{pre_file}_{pro_file}_{fname}.csv"
-            h.write_hvsr_object_to_file(res, out, distribution_mc="lognormal", distribution_fn="lognormal")
+            out = f"ref_{pre_file}_{pro_file}_{dist_mc}_{dist_fn}_{fname}.csv"
+            h.write_hvsr_object_to_file(res, out, distribution_mc=dist_mc, distribution_fn=dist_fn)
             n = pro.fft_settings["n"]
         return open(out, "rb").read(), n
     finally:
@@ -100,6 +100,9 @@ def main():
     names = make_files(h, wd, rng)
     refs = {stem: reference(h, wd, fn) for stem, fn in names.items() if stem in ("big1", "small1", "small2")}
     refs2 = {stem: reference(h, wd, fn, "pro2.json", "pre2.json") for stem, fn in names.items() if stem in ("big1", "small1", "small2")}
+    # third variant: the two distribution options of the command line differ from each other and from their defaults
+    refs3 = {stem: reference(h, wd, fn, "pro.json", "pre.json", dist_mc="normal", dist_fn="lognormal") for stem, fn in names.items() if stem in ("big1", "small1", "small2")}
+    refs4 = {stem: reference(h, wd, fn, "pro2.json", "pre2.json", dist_mc="lognormal", dist_fn="normal") for stem, fn in names.items() if stem in ("big1", "small1", "small2")}
     for stem, (_, n) in list(refs.items()) + list(refs2.items()):
         want = 65536 if stem.startswith("big") else 32768
         if n != want:
@@ -141,9 +144,14 @@ def main():
         env["HVSRPY_VERIF_TRACE"] = tf
         pro_file = "pro.json" if ci % 2 == 0 else "pro2.json"
         cur_refs = refs if pro_file == "pro.json" else refs2
-        cmd = [sys.executable, "-c", "from hvsrpy.cli import cli; cli()", "--no_figure", "--nproc", str(nproc),
+        dist_opts = []
+        if ci % 3 == 1:
+            dist_opts = ["--distribution_mc", "normal", "--distribution_fn", "lognormal"] if pro_file == "pro.json" else ["--distribution_mc", "lognormal", "--distribution_fn", "normal"]
+            cur_refs = refs3 if pro_file == "pro.json" else refs4
+        cmd = [sys.executable, "-c", "from hvsrpy.cli import cli; cli()", "--no_figure", "--nproc", str(nproc)] + dist_opts + [
                "--preprocessing_settings_file", "pre.json" if pro_file == "pro.json" else "pre2.json",
                "--processing_settings_file", pro_file] + [names[f] for f in files]
+        run.notes["cli_runs_with_distribution_options"] = run.notes.get("cli_runs_with_distribution_options", 0) + (1 if dist_opts else 0)
         p = subprocess.run(cmd, cwd=wd, env=env, stdout=subprocess.PIPE, stderr=subprocess.STDOUT, text=True, timeout=600)
         if p.returncode != 0:
             run.violation("cli:failed", f"hvsrpy CLI exited with {p.returncode} for files={files} nproc={nproc}: {p.stdout[-400:]}",
@@ -156,7 +164,7 @@ def main():
                            na=NCLASS.get(None if na == "None" else int(na), 9)))
         # with an explicit n in the settings file every task legitimately starts from class 1 (32 768): class 0/1 coincide
         runs.append(dict(files=list(files), nproc=nproc, ev=[dict(file=e["file"], nb=e["nb"], na=e["na"]) for e in ev]))
-        key_cfg = f"files={list(files)} nproc={nproc} settings={pro_file}"
+        key_cfg = f"files={list(files)} nproc={nproc} settings={pro_file} options={dist_opts}"
         for f in files:
             out = os.path.join(wd, f"{f}.csv")
             if not os.path.exists(out):
